@@ -33,7 +33,7 @@ buffer, for a run of printable characters that reaches the end of the buffer. -/
 theorem C09_width (T : Table) (lens : List Nat) (b : Bytes) (more : Bool)
     (hb : b ≠ []) (hl : ∀ l ∈ lens, 0 < l) (w : Nat) (m : Option Msg)
     (h : detectOneMsg T lens b more = .ok (w, m)) :
-    w ≤ b.length ∧ (0 < w → m.isSome) ∧ (w = 0 → m = none ∧ HeldBack b more) := by
+    w ≤ b.length ∧ (0 < w → m.isSome) ∧ (w = 0 → m = none ∧ HeldBack T b more) := by
   obtain ⟨w', m', h', h1, h2, h3⟩ := detectOneMsg_spec T lens b more hb hl
   rw [h] at h'
   injection h' with h'
@@ -54,22 +54,38 @@ theorem C09_read_accounting (T : Table) (lens : List Nat) (hl : ∀ l ∈ lens, 
     ∃ out left', processRead T lens left chunk = .ok (out, left') ∧
       consumedOf out ++ left' = left ++ chunk ∧
       (∀ o ∈ out, o.consumed ≠ [] ∧ o.msg.isSome) ∧
-      (left' ≠ [] → HeldBack left' (chunk.length == bufSize)) :=
+      (left' ≠ [] → HeldBack T left' (chunk.length == bufSize)) :=
   processRead_spec T lens hl left chunk
 
-/-- every division of every byte string into reads: the reader is total (the inner loop is
-defined by structural recursion on fuel `length + 1`, and the proof shows the fuel never
-runs out: each iteration consumes at least one byte), and nothing is skipped, repeated or
-invented: the consumed runs followed by the final left-over are the input. -/
-theorem C09_reader_total (T : Table) (lens : List Nat) (hl : ∀ l ∈ lens, 0 < l) (chunks : List Bytes) :
-    ∃ out left, readAll T lens chunks [] [] = .ok (out, left) ∧
+/-- every division of every byte string into reads, ended by end of input (`eof = true`:
+the held-back bytes are decoded) or by any other error / cancellation (`eof = false`): the
+reader is total (the inner loop is defined by structural recursion on fuel `length + 1`,
+and the proof shows the fuel never runs out: each iteration consumes at least one byte),
+and nothing is skipped, repeated or invented: the consumed runs followed by what is still
+held back are the input. At end of input only an unterminated paste can remain undelivered. -/
+theorem C09_reader_total (T : Table) (lens : List Nat) (eof : Bool) (hl : ∀ l ∈ lens, 0 < l) (chunks : List Bytes) :
+    ∃ out left, readAll T lens eof chunks [] [] = .ok (out, left) ∧
       consumedOf out ++ left = chunks.flatten ∧
-      (∀ o ∈ out, o.consumed ≠ [] ∧ o.msg.isSome) := by
-  obtain ⟨out, left, h1, h2, h3⟩ := readAll_spec T lens hl chunks [] [] (by simp)
-  exact ⟨out, left, h1, by simpa [consumedOf] using h2, h3⟩
+      (∀ o ∈ out, o.consumed ≠ [] ∧ o.msg.isSome) ∧
+      (eof = true → left ≠ [] → UnterminatedPaste left) := by
+  obtain ⟨out, left, h1, h2, h3, h4⟩ := readAll_spec T lens eof hl chunks [] [] (by simp)
+  refine ⟨out, left, h1, by simpa [consumedOf] using h2, h3, ?_⟩
+  intro he hne
+  rcases h4 he hne with h | h
+  · exact h
+  · simp at h
+
+/-- "held back only while an event may still be incomplete", spelled out: the reasons for a
+zero width are decidable facts about the buffer (no hidden state), and none applies to a
+buffer that ends with a complete ASCII letter after a short read. -/
+example : ¬ HeldBack [] [0x61] false := by
+  intro h
+  rcases h with h | h
+  · exact absurd h.1 (by decide)
+  · simp at h
 
 /-- non-vacuity: a concrete stream (a key, an invalid byte, a mouse report cut in two) -/
-example : (readAll [{ seq := [0x1b, 0x5b, 0x41], key := { type := -2 } }] [3]
+example : (readAll [{ seq := [0x1b, 0x5b, 0x41], key := { type := -2 } }] [3] true
     [[0x1b, 0x5b, 0x41, 0xff], [0x1b, 0x5b, 0x3c, 0x30, 0x3b], [0x31, 0x3b, 0x31, 0x4d]] [] []).toOption.isSome = true := by
   decide
 
